@@ -49,12 +49,17 @@ SPEC = [
     ("iterators.py", ["is_tbl", "is_tr", "is_tc"]),
     ("namespace.py", ["qn"]),
     ("text_runs.py", ["_gather_sub_vals", "gather_Pr", "get_pStyle"]),
+    ("namespace.py", ["get_attrib_by_qn", "iterfind_by_qn"]),
+    ("forms.py", ["get_checkBox_entry", "get_ddList_entry"]),
+    ("bullets_and_numbering.py", ["BulletGenerator._get_numPr", "BulletGenerator._get_numId", "BulletGenerator._get_ilvl",
+                                  "BulletGenerator.get_bullet_fmt"]),
 ]
 
 EXN = {"ValueError", "KeyError", "IndexError", "TypeError", "AttributeError", "StopIteration"}
 KNOWN_GLOBALS = {"ascii_lowercase": "ascii_lowercase"}
 BUILTINS = {"divmod": ("py_divmod", 2), "len": ("py_len", 1), "enumerate": ("py_enumerate", 1),
-            "reversed": ("py_reversed", 1), "list": ("py_list", 1), "tuple": ("py_tuple", 1)}
+            "reversed": ("py_reversed", 1), "list": ("py_list", 1), "tuple": ("py_tuple", 1),
+            "int": ("py_int", 1)}
 # calls on lxml elements, modelled as reads of the element object (VObj "Element"): trusted mapping
 EXTERNAL = {"get_prefixed_tag": "ptag", "get_localname": "localname"}
 # functions of other modules that are NOT translated: they become explicit function parameters
@@ -121,12 +126,21 @@ class Fn:
                     die(st, "decorated nested function")
                 inner = Fn(tr, f"{qual}.{st.name}", st, False)
                 bound = set(inner.params) | set(inner.assigned([x for x in st.body]))
+                outer_assigned = set(self.assigned([x for x in node.body if not isinstance(x, ast.FunctionDef)]))
+                captured = []
                 for n in own(st):
                     if isinstance(n, ast.Name) and isinstance(n.ctx, ast.Load) and n.id not in bound \
-                            and (n.id in self.params or n.id in self.assigned(
-                                [x for x in node.body if not isinstance(x, ast.FunctionDef)])) \
-                            and n.id != st.name:
-                        die(n, f"nested function {st.name} reads {n.id} of the enclosing function")
+                            and (n.id in self.params or n.id in outer_assigned) and n.id != st.name:
+                        # a closure over a PARAMETER the enclosing function never re-binds: its value at the
+                        # call is its value at the definition, so it can be passed as a leading argument
+                        if n.id in self.params and n.id not in outer_assigned and n.id not in self.mutation_roots(
+                                [x for x in node.body if not isinstance(x, ast.FunctionDef)]):
+                            if n.id not in captured:
+                                captured.append(n.id)
+                        else:
+                            die(n, f"nested function {st.name} reads {n.id} of the enclosing function")
+                inner.params = captured + inner.params
+                inner.captured = captured
                 dfl = []
                 for d in st.args.defaults:
                     if isinstance(d, ast.Constant) and isinstance(d.value, int) and not isinstance(d.value, bool):
@@ -135,7 +149,8 @@ class Fn:
                         dfl.append("VNone")
                     else:
                         die(d, "default of a nested function: an int constant or None")
-                info = {"qual": inner.qual, "params": inner.params, "defaults": dfl, "fuel": inner.needs_fuel}
+                info = {"qual": inner.qual, "params": inner.params[len(captured):], "defaults": dfl, "fuel": inner.needs_fuel,
+                        "captured": captured}
                 inner.local_fns[st.name] = info
                 self.local_fns[st.name] = info
                 self.inner_text.append(inner.emit())
@@ -240,6 +255,10 @@ class Fn:
                     walk(st.body)
                 elif isinstance(st, ast.With):
                     walk(st.body)
+                elif isinstance(st, ast.Try):
+                    walk(st.body)
+                    for h_ in st.handlers:
+                        walk(h_.body)
                 elif isinstance(st, (ast.Return, ast.Raise, ast.Pass, ast.FunctionDef, ast.Continue)):
                     pass
                 else:
@@ -428,6 +447,12 @@ class Fn:
                 return acc if acc is not None else "(VStr [])"
             if isinstance(e, ast.Dict) and not e.keys:
                 return "(VDict None [])"
+            if isinstance(e, ast.Dict) and all(isinstance(k, ast.Constant) for k in e.keys) \
+                    and all(isinstance(v, ast.Constant) for v in e.values):
+                keys = [k.value for k in e.keys]
+                if len(set(map(repr, keys))) != len(keys):
+                    die(e, "dict display with a repeated key")
+                return "(VDict None [" + "; ".join(f"({go(k)}, {go(v)})" for k, v in zip(e.keys, e.values)) + "])"
             if isinstance(e, ast.Call) and isinstance(e.func, ast.Name) and e.func.id == "isinstance" and len(e.args) == 2 \
                     and isinstance(e.args[1], ast.Name) and e.args[1].id == "str" and not e.keywords:
                 a = go(e.args[0])
@@ -490,7 +515,12 @@ class Fn:
                     fuel = ("fuel' " if self.qual == inner["qual"] else "fuel ") if inner["fuel"] else ""
                     exts = [f"ext_{x}" for x in inner.get("exts", [])]
                     self.externals |= set(inner.get("exts", []))
-                    L.append(self.bindline(mode, t, f"{mangle(inner['qual'])} {fuel}{' '.join(exts + args)}"))
+                    caps = []
+                    for c in inner.get("captured", []):
+                        if c not in env:
+                            die(e, f"captured name {c} is not bound at the call of {f.id}")
+                        caps.append(self.v(c))
+                    L.append(self.bindline(mode, t, f"{mangle(inner['qual'])} {fuel}{' '.join(exts + caps + args)}"))
                     return t
                 if f.id == "str" and len(args) == 1:
                     L.append(self.bindline(mode, t, f"{self.tr.str_fn(self)} {args[0]}"))
@@ -508,6 +538,20 @@ class Fn:
                     L.append(self.bindline(mode, t, self.call_text(f.id, args)))
                 else:
                     die(e, f"call of {f.id} is not translated")
+                return t
+            if isinstance(f, ast.Attribute) and isinstance(f.value, ast.Name) and f.value.id == "self" \
+                    and "self" in env and "." in self.qual \
+                    and f"{self.qual.split('.')[0]}.{f.attr}" in self.tr.method_arity:
+                # a call of another translated method of the same class
+                mq = f"{self.qual.split('.')[0]}.{f.attr}"
+                if self.tr.method_arity[mq] != len(e.args) + 1:
+                    die(e, f"call of {mq} with {len(e.args)} arguments")
+                args = [go(a) for a in e.args]
+                exts = self.tr.ext_params.get(mq, [])
+                self.externals |= set(exts)
+                t = self.fresh()
+                fuel = "fuel " if self.tr.fuelled.get(mq) else ""
+                L.append(self.bindline(mode, t, f"{mangle(mq)} {fuel}{' '.join([f'ext_{x}' for x in exts] + [self.v('self')] + args)}"))
                 return t
             if isinstance(f, ast.Attribute):
                 key = (f.attr, len(e.args))
@@ -766,8 +810,9 @@ class Fn:
                 die(st, "with: only `with suppress(E):`")
             ce = st.items[0].context_expr
             if not (isinstance(ce, ast.Call) and isinstance(ce.func, ast.Name) and ce.func.id == "suppress"
-                    and len(ce.args) == 1 and isinstance(ce.args[0], ast.Name) and ce.args[0].id in EXN):
-                die(st, "with: only `with suppress(<one known exception>):`")
+                    and 1 <= len(ce.args) <= 3 and not ce.keywords
+                    and all(isinstance(a, ast.Name) and a.id in EXN for a in ce.args)):
+                die(st, "with: only `with suppress(<known exceptions>):`")
             av = self.assigned(st.body)
             used_after = {n.id for r_ in rest for n in ast.walk(r_) if isinstance(n, ast.Name)}
             if any(x in used_after for x in av if x not in env):
@@ -775,7 +820,39 @@ class Fn:
             if any(x in env for x in av) or "acc_" in av:
                 die(st, "`with suppress` bodies may only bind fresh names")
             body = self.block(st.body, env, "Nx tt", ind + 1)
+            if len(ce.args) > 1:
+                exl = "[" + "; ".join(a.id for a in ce.args) + "]"
+                return "\n".join([pad + f"'tt <~~ py_suppress_l {exl} (", body, pad + ") tt ;;;", cont()])
             return "\n".join([pad + f"'tt <~~ py_suppress {ce.args[0].id} (", body, pad + ") tt ;;;", cont()])
+        if isinstance(st, ast.Try):
+            # try: BODY except (E1, E2): HANDLER.  The functional state after the handler is the state BEFORE the
+            # try updated by the handler; sound when every name the body binds is re-bound by the handler or is
+            # not read afterwards (checked), and the body mutates nothing (checked: no mutation roots)
+            if st.orelse or st.finalbody or len(st.handlers) != 1 or st.handlers[0].name is not None:
+                die(st, "try: one except clause without binding, no else / finally")
+            ht = st.handlers[0].type
+            names = [ht] if isinstance(ht, ast.Name) else (list(ht.elts) if isinstance(ht, ast.Tuple) else None)
+            if not names or not all(isinstance(n, ast.Name) and n.id in EXN for n in names):
+                die(st, "except: known exception classes only")
+            if self.mutation_roots(st.body):
+                die(st, "a try body that mutates a container is not translated")
+            av_b, av_h = self.assigned(st.body), self.assigned(st.handlers[0].body)
+            if "acc_" in av_b or "acc_" in av_h:
+                die(st, "yield inside try")
+            used_after = {n.id for r_ in rest for n in ast.walk(r_) if isinstance(n, ast.Name)}
+            for x in av_b:
+                if x not in av_h and x in used_after:
+                    die(st, f"{x} is bound in the try body only and read after the try statement")
+            av = sorted(set(av_b) | set(av_h))
+            pre = [f"let {self.pat([x])} := VNone in" for x in av if x not in env]
+            env_in = env | set(av)
+            body = self.block(st.body, set(env_in), f"Nx {self.pat(av)}", ind + 1)
+            hnd = self.block(st.handlers[0].body, set(env_in), f"Nx {self.pat(av)}", ind + 1)
+            env = env_in
+            exl = "[" + "; ".join(n.id for n in names) + "]"
+            sty = "unit" if not av else ("pv" if len(av) == 1 else "(" + " * ".join(["pv"] * len(av)) + ")")
+            return "\n".join([pad + l for l in pre] +
+                             [pad + f"{self.lam_pat(av)} <~~ py_try (S:={sty}) (", body, pad + f") {exl} (", hnd, pad + ") ;;;", cont()])
         if isinstance(st, ast.FunctionDef):
             return cont()          # nested function: lifted to the top level by emit()
         if isinstance(st, ast.While):
@@ -844,6 +921,7 @@ class Translator:
         self.setconsts = set()    # module constants that are sets of enum members (emitted as list pv)
         self.ext_params = {}      # python function name -> externals it needs as leading parameters
         self.defaults = {}        # function name -> (number of parameters, default expressions)
+        self.method_arity = {}    # Class.method -> number of parameters (self included)
         self.may_raise = {"StopIteration": set()}   # translated functions that contain next() / raise StopIteration
         self.str_dispatch_fuelled = False
         self.out = []
@@ -945,6 +1023,8 @@ class Translator:
         if any(isinstance(n, ast.Call) and isinstance(n.func, ast.Name) and n.func.id == "next" for n in ast.walk(node)):
             self.may_raise["StopIteration"].add(node.name)
         self.ext_params[qual] = fn.ext_list
+        if is_method:
+            self.method_arity[qual] = len(node.args.args)
         if not is_method:
             self.ext_params[node.name] = fn.ext_list
             self.defaults[node.name] = (len(node.args.args), list(node.args.defaults))
